@@ -406,6 +406,47 @@ func genErrFlow(dir string) error {
 	return os.WriteFile(filepath.Join(dir, "ErrFlow.lean"), []byte(sb.String()), 0o644)
 }
 
+// genPanicSites: every explicit panic( … ) in the packages the readers run through, with the
+// enclosing function (C11: each listed site needs an argument why no input reaches it).
+func genPanicSites(dir string) error {
+	var rows []string
+	for _, rel := range []string{".", "lzma"} {
+		p, err := loadPkg(rel)
+		if err != nil {
+			return err
+		}
+		for fi, f := range p.files {
+			for _, d := range f.Decls {
+				fd, ok := d.(*ast.FuncDecl)
+				if !ok || fd.Body == nil {
+					continue
+				}
+				fname := fd.Name.Name
+				if fd.Recv != nil && len(fd.Recv.List) > 0 {
+					fname = exprStr(fd.Recv.List[0].Type) + "." + fname
+				}
+				n := 0
+				ast.Inspect(fd.Body, func(nd ast.Node) bool {
+					if call, ok := nd.(*ast.CallExpr); ok {
+						if id, ok := call.Fun.(*ast.Ident); ok && id.Name == "panic" {
+							n++
+						}
+					}
+					return true
+				})
+				if n > 0 {
+					rows = append(rows, fmt.Sprintf("(%s, %s, %d)", leanStr(rel+"/"+p.names[fi]), leanStr(fname), n))
+				}
+			}
+		}
+	}
+	sort.Strings(rows)
+	var sb strings.Builder
+	sb.WriteString("/- GENERATED by harness `xzh gen` from /repo (T-facts: go/ast). Do not edit. -/\nnamespace Gen\n\n")
+	fmt.Fprintf(&sb, "/-- (file, function, number of explicit panic calls) in packages xz and lzma -/\ndef panicSites : List (String × String × Nat) :=\n  [%s]\n\nend Gen\n", strings.Join(rows, ",\n   "))
+	return os.WriteFile(filepath.Join(dir, "PanicSites.lean"), []byte(sb.String()), 0o644)
+}
+
 func exprStr(e ast.Expr) string {
 	switch x := e.(type) {
 	case *ast.Ident:
